@@ -212,7 +212,7 @@ def rule_closed_forms(repo: Repo, rep: Report) -> None:
         if qual.endswith("conjugates") and not (len(loops) == 1 and classify(loops[0].iter, ["range(1, self.field.m)", "range(self.field.m - 1)"])[0] == OK and any(match(x, "_E = _E * _E") is not None for x in loops[0].body if isinstance(x, ast.Assign))):
             cst, cdetail = conjugates_tabulated(repo, fi)
             if cst in (OK, VIOLATION):
-                rep.add("KERNEL", fi, "FiniteBifieldElement.conjugates tabulated over GF(4), GF(8), GF(16)", cst, cdetail, node=fi.node)
+                rep.add("KERNEL", fi, "FiniteBifieldElement.conjugates tabulated over GF(4), GF(8), GF(16), GF(64)", cst, cdetail, node=fi.node)
                 conj_done = True
                 continue
         if len(loops) != 1:
@@ -243,6 +243,11 @@ def rule_closed_forms(repo: Repo, rep: Report) -> None:
     for b in ([] if conj_done else brk):
         s, d, _ = classify(b.test, ["element.value == self.value", "element == self"])
         rep.add("CLOSED-FORM", fi, f"conjugate cycle closes: if {unparse(b.test)}: break", s, d, node=b)
+
+    # --- FiniteBifieldElement.minimal_polynomial, tabulated for every element (decides unlisted spellings of its search)
+    fi = repo.func(ALG, "FiniteBifieldElement.minimal_polynomial")
+    mst, mdetail = minpoly_tabulated(fi)
+    rep.add("KERNEL", fi, "FiniteBifieldElement.minimal_polynomial tabulated over every element of GF(4), GF(8), GF(16), GF(64)", mst, mdetail, node=fi.node)
 
     # --- FiniteBifield.get_minimal_polynomials: the table of all minimal polynomials, however it is assembled
     fi = repo.func(ALG, "FiniteBifield.get_minimal_polynomials")
@@ -510,7 +515,7 @@ def conjugates_tabulated(repo: Repo, fi: FuncInfo):
 
     tb = repo.func(ALG, "FiniteBifield._init_log_exp_tables")
     n = 0
-    for m, mod in ((2, 0b111), (3, 0b1011), (4, 0b10011)):
+    for m, mod in ((2, 0b111), (3, 0b1011), (4, 0b10011), (6, 0b1000011)):
         size = 1 << m
         try:
             env = run_fragment(tb.body, {}, {"self.m": m, "self.size": size, "self.modulus": gf2.BP(mod), "self.modulus.value": mod, "self._exp_table": [0] * size, "self._log_table": [0] * size}, max_steps=20000)
@@ -538,6 +543,35 @@ def conjugates_tabulated(repo: Repo, fi: FuncInfo):
                 return VIOLATION, f"conjugates of the element {v:#b} of GF(2^{m}) are returned as {[x.value for x in got]}; the orbit under squaring is {want} (the minimal polynomial built from them is not the least-degree one)"
             n += 1
     return OK, f"equals the orbit under squaring for all {n} elements (zero included)"
+
+
+def minpoly_tabulated(fi: FuncInfo):
+    """FiniteBifieldElement.minimal_polynomial run for EVERY element (zero included) of GF(4), GF(8), GF(16), GF(64), with
+    field, elements and polynomials modelled by gf2 (conjugates() and evaluate() are the model's own): the result must be
+    the product of (X + c) over the conjugates - X for the zero element."""
+    from ..frag import FragRaise, FragReturn, run_fragment
+
+    count = 0
+    for m, mod in ((2, 0b111), (3, 0b1011), (4, 0b10011), (6, 0b1000011)):
+        field = gf2.FieldModel(m, mod)
+        for v in range(1 << m):
+            el = gf2.FieldElem(field, v)
+            try:
+                run_fragment(fi.body, {"self": el}, {}, max_steps=400000, ctors={"BinaryPolynomial": gf2.BP})
+                return UNDECIDED, "no value returned"
+            except FragReturn as r:
+                got = r.value
+            except FragRaise:
+                return VIOLATION, f"GF(2^{m}): minimal_polynomial() of the element {v:#b} raises; every element has a minimal polynomial ({'X for the zero element' if v == 0 else 'the product of (X + c) over its conjugates'})"
+            except (Unfoldable, TypeError, IndexError, ArithmeticError, ZeroDivisionError) as exc:
+                return UNDECIDED, f"not evaluable ({exc})"
+            want = el.minimal_polynomial()
+            if not isinstance(got, gf2.BP):
+                return UNDECIDED, "result is not a polynomial object"
+            if got.value != want.value:
+                return VIOLATION, f"GF(2^{m}): minimal_polynomial() of the element {v:#b} is {got.value:#b}; the product of (X + c) over its conjugates is {want.value:#b}"
+            count += 1
+    return OK, f"equals the product of (X + c) over the conjugates for all {count} elements (zero included)"
 
 
 def minpoly_table_evaluated(fi: FuncInfo):
